@@ -268,3 +268,54 @@ func seenRoot(bv bufView, k *ssa.Function) int {
 	}
 	return 0
 }
+
+// checkFreshParameterShapes (R04.11): Reshape keeps the shape vector it is handed as the extents of the view it
+// returns. In ApplyParameters every parameter view therefore gets a shape vector of its own (a literal or make): a
+// scratch vector that is reset and appended to for the next parameter shares its storage with the views decoded
+// before, whose extents then change under them — a scalar parameter reports the table length as its number of
+// parameter sets, and cells pick the wrong set.
+func checkFreshParameterShapes(p *Program, r *Report, models []*Model) {
+	r.Rule("R04.11", "parameter views do not share their shape vectors: in every wrapper's ApplyParameters (and the helpers of package sim it uses) the shape handed to Reshape/MustReshape is a freshly allocated vector — not the result of append, not a re-slice of a vector used before — because the view retains it as its extents")
+	n := 0
+	for _, m := range models {
+		ap := m.Methods["ApplyParameters"]
+		if ap == nil || len(ap.Blocks) == 0 || len(m.Params) == 0 {
+			continue
+		}
+		key := m.RelPkg + "." + m.Name
+		k := 0
+		for _, c := range callsIn(ap) {
+			nm := callName(c.Common())
+			if nm != "MustReshape" && nm != "Reshape" && nm != "ReshapeFast" {
+				continue
+			}
+			args := callArgs(c.Common())
+			if len(args) != 1 {
+				continue
+			}
+			k++
+			n++
+			bad := ""
+			for _, o := range origins(args[0]) {
+				switch x := o.(type) {
+				case *ssa.Call:
+					if bi, ok := x.Common().Value.(*ssa.Builtin); ok && bi.Name() == "append" {
+						bad = "the result of append (it may reuse the storage of the vector appended to)"
+					}
+				case *ssa.Slice:
+					if _, isAlloc := x.X.(*ssa.Alloc); !isAlloc {
+						bad = "a re-slice of an existing vector"
+					}
+				case *ssa.Parameter:
+					bad = "a vector handed in by the caller"
+				}
+			}
+			if bad != "" {
+				r.Fail("R04.11", fmt.Sprintf("%s:shape#%d", key, k), p.Pos(c.Pos()), "the shape given to "+nm+" in ApplyParameters is "+bad+": the parameter view keeps that vector as its extents, so the next parameter's shape overwrites it — Len1() of a scalar parameter is no longer the number of parameter sets and cells read another set's value")
+			} else {
+				r.OK("R04.11", fmt.Sprintf("%s: parameter view %d gets a shape vector of its own", key, k))
+			}
+		}
+	}
+	r.Floor("R04.11", "parameter views reshaped in ApplyParameters", n, 40)
+}
